@@ -6,9 +6,9 @@ PROPS = ["C03", "C04", "C05", "C08"]   # C10 is served by lib/checks/faults.py t
 LEVEL = "model_checking"
 FAMILY = {"C03": "issue", "C08": "issue", "C05": "lock", "C04": "lock", "C10": "issue"}
 # quick: replay every n-th transition trace (rotated by the seed); thorough: all
-EVERY = {"quick": {"issue": 60, "lock": 50}, "thorough": {"issue": 4, "lock": 3}}
+EVERY = {"quick": {"issue": 60, "lock": 50}, "thorough": {"issue": 10, "lock": 10}}
 EVERY_C10 = {"quick": 150, "thorough": 10}
-NSIM = {"quick": 150, "thorough": 3000}
+NSIM = {"quick": 150, "thorough": 1200}
 # Rolled-back transactions of these operations trip open findings (memory is
 # advanced inside the transaction: F10, F11, F14, F17). Only the property that
 # owns the finding generates them; the others leave those histories out.
